@@ -35,6 +35,11 @@ class FuncInfo:
         self.memo_decorators = [d for d in decos if d.split("(")[0].split(".")[-1] in ("lru_cache", "cache", "cached_property")]
         self.is_setter = any(d.endswith(".setter") for d in decos)
         self.is_abstract = any(d.endswith("abstractmethod") for d in decos)
+        known = ("staticmethod", "classmethod", "property", "abstractmethod", "cached_property", "lru_cache", "cache", "wraps", "overload",
+                 "override", "final", "singledispatchmethod", "total_ordering", "dataclass")
+        # decorators the model has no fixed meaning for (package-defined ones): the interpreter applies them when the member is used
+        self.custom_decorators = [d for d in node.decorator_list
+                                  if ast.unparse(d).split("(")[0].split(".")[-1] not in known and not ast.unparse(d).endswith((".setter", ".getter", ".deleter"))]
 
     @property
     def qualname(self) -> str:
